@@ -20,4 +20,8 @@ theorem holds_inflight_send_never_panics (s : ReplyChan.State) (h : ReplyChan.Re
     s.panicked = false :=
   Props.C20.no_send_on_closed_channel _ (by decide) s h
 
+theorem holds_reattached_exit_noticed (isChild : Bool) (ageMs : Nat) :
+    Lifecycle.reattachWaitFaithful Facts.reattachProbe isChild = true ∧ Lifecycle.reattachExitNoticedWithin Facts.reattachProbe ageMs ≤ 1000 :=
+  Props.C03.reattached_exit_noticed _ (by decide) isChild ageMs
+
 end GoPlugin.Instance.C03
